@@ -172,11 +172,13 @@ func init() {
 		Name:      "mass_slashing",
 		Knobs:     SpecKnobs{AllForksInside: true, SmallChurn: true, PenaltyWhileActive: true},
 		MinEpochs: 11,
-		Gen:       GenesisKnobs{MinVals: 24, MaxVals: 96, Eth1Share: 30, AboveShare: 10, BelowShare: 5},
+		Gen:       GenesisKnobs{MinVals: 24, MaxVals: 96, Eth1Share: 30, AboveShare: 40, AboveBoost: 8, BelowShare: 5}, // balances 8-12 ETH above the cap: something is left after a full correlation penalty
 		Rates:     OpRates{Exit: 2, BLSChange: 5},
 		Init: func(c *Chain) {
 			c.Vars["slash_epoch"] = 1
-			c.Vars["slash_target"] = len(c.Vals)/3 + c.Rng.Intn(len(c.Vals)/8+1)
+			// more than a third of the registry (multiplier 3 in every fork of this scenario): the correlation penalty
+			// min(sum*3, total) clamps at `total`
+			c.Vars["slash_target"] = len(c.Vals)/3 + 3 + c.Rng.Intn(len(c.Vals)/8+1)
 		},
 		Mode: func(c *Chain, e common.Epoch) string { return "full" },
 		BeforeBlock: func(c *Chain, p *ProposeCtx) {
@@ -215,6 +217,9 @@ func init() {
 			commonChecks(c, &out)
 			expect(c.Stats.Get("validators_slashed") >= c.initialVals/5, &out, "only %d of %d validators slashed", c.Stats.Get("validators_slashed"), c.initialVals)
 			expect(c.Stats.Get("epochs_with_slashing_penalties") >= 1, &out, "no epoch applied correlated slashing penalties")
+			if c.Epochs >= 11 {
+				expect(c.Stats.Get("slashing_penalty_in_clamp_band") >= 1, &out, "no correlation penalty in the band sum*multiplier > total > sum")
+			}
 			expect(c.Stats.Get("blocks_exit_queue_advanced_twice") >= 1, &out, "no block initiated 2*churn+1 exits at once (max %d)", c.Stats.Get("max_exits_initiated_in_one_block"))
 			if c.Epochs >= 11 {
 				expect(c.Stats.Get("slashed_reaching_withdrawable_epoch") >= 1, &out, "no slashed validator reached its withdrawable epoch")
